@@ -61,6 +61,8 @@ def plan(tier, seed):
         shards.append(("hist", li, 3 if tier == "quick" else 4))
     for k_ in range(len(DEEP)):
         shards.append(("deep", k_))
+    for li in (0, 3, 5):
+        shards.append(("threads", li))
     k = seed % len(shards)
     return shards[k:] + shards[:k]
 
@@ -90,6 +92,66 @@ def _run_deep(desc):
     sh.nontrivial += 2
     sh.outcomes.add(("deep", desc[1]))
     sh.sample(case, limit=1)
+    return sh
+
+
+def _run_threads(desc):
+    """two python threads ask ONE shared unitcell object for the same reflection list at the same time (workers indexing one phase):
+    every schedule with one preemption at a statement of gethkls / makerings is executed; each caller must receive the complete,
+    sorted, duplicate-free list for its limit, and the object must hold it afterwards"""
+    _, li = desc
+    from ImageD11 import unitcell as uc_mod
+    from vt import pysched
+    sh = Shard()
+    cell, sym = HIST_LATTICES[li]
+    dmin = min(O.brute_hkls(cell, sym, 1.0)[0].values())
+    lim = round(dmin * 1.45, 4)
+    want = sorted(O.brute_hkls(cell, sym, lim)[0])
+    codes = (uc_mod.unitcell.gethkls.__code__, uc_mod.unitcell.makerings.__code__)
+    holder = {}
+
+    def reset():
+        holder["uc"] = uc_mod.unitcell(cell, sym)
+
+    def listed(peaks):
+        return [tuple(int(x) for x in p[1]) for p in peaks], [p[0] for p in peaks]
+    for mode in ("gethkls+gethkls", "gethkls+makerings"):
+        def make():
+            def a():
+                return listed(holder["uc"].gethkls(lim))
+
+            def b():
+                if mode == "gethkls+gethkls":
+                    return listed(holder["uc"].gethkls(lim))
+                holder["uc"].makerings(lim - 1e-3, 1e-3)
+                return listed(holder["uc"].peaks)
+            return [a, b]
+        nexec = 0
+        for sw, res, err in pysched.explore(make, lambda fr: fr.f_code in codes, bound=1, reset=reset, max_exec=6000):
+            nexec += 1
+            case = {"kind": "threads", "cell": cell, "sym": sym, "mode": mode, "switch_at_points": list(sw), "dsmax": lim}
+            for t in range(2):
+                if err[t] is not None:
+                    sh.violation("gethkls:concurrent-call-raises", dict(case, thread=t), {"error": repr(err[t])[:200]})
+                    break
+                hk, ds = res[t]
+                if sorted(hk) != want or len(set(hk)) != len(hk) or any(ds[i] > ds[i + 1] for i in range(len(ds) - 1)):
+                    sh.violation("gethkls:caller-received-an-incomplete-unsorted-or-duplicated-list", dict(case, thread=t),
+                                 {"n": len(hk), "expected": len(want), "duplicates": len(hk) - len(set(hk))})
+                    break
+            else:
+                hk, ds = listed(holder["uc"].gethkls(lim))
+                if sorted(hk) != want or len(set(hk)) != len(hk):
+                    sh.violation("gethkls:object-holds-a-wrong-list-afterwards", case, {"n": len(hk), "expected": len(want)})
+            sh.states += 1
+            sh.traces_validated += 1
+            if sh.violations:
+                break
+        sh.count("thread_schedules_executed", nexec)
+        sh.evaluations += 1
+        sh.nontrivial += 1
+    sh.outcomes.add(("threads", li))
+    sh.sample({"kind": "threads", "cell": cell, "sym": sym, "schedules": nexec, "reflections": len(want)}, limit=1)
     return sh
 
 
@@ -249,6 +311,8 @@ def run_shard(desc):
         return _run_hist(desc)
     if desc[0] == "deep":
         return _run_deep(desc)
+    if desc[0] == "threads":
+        return _run_threads(desc)
     _, tier, c0, c1 = desc
     from ImageD11 import unitcell as uc_mod
     sh = Shard()
@@ -289,6 +353,10 @@ def run_shard(desc):
 def replay(case):
     from ImageD11 import unitcell as uc_mod
     sh = Shard()
+    if case.get("kind") == "threads":
+        li = [i for i, (c, s_) in enumerate(HIST_LATTICES) if c == case["cell"] and s_ == case["sym"]][0]
+        r = _run_threads(("threads", li))
+        return (not r.violations), {"violations": r.violations[:2]}
     if case.get("kind") == "hist":
         li = [i for i, (c, s_) in enumerate(HIST_LATTICES) if c == case["cell"] and s_ == case["sym"]][0]
         r = _run_hist(("hist", li, len(case["history"])))
